@@ -288,7 +288,13 @@ float_32
     : NUM_INT
         { $$ = float32(parseInt($1)) }
     | NUM_FLOAT
-        { $$ = parseFloat32($1) }
+        {
+            f, ok := tryParseFloat32($1)
+            if !ok {
+                return mmlex.(*mmLexInfo).fail("value out of range")
+            }
+            $$ = f
+        }
     ;
 
 stage_retain
